@@ -1428,12 +1428,19 @@ def arr_method(it, a, name, args, kwargs, node):
                 e2 = np_empty(it, (0, 0))
                 it.heap.write_a2_where(a.field, a.owner.ref, lambda i, j: True, lambda i, j, e2=e2: e2.get(i, j))
                 return None
+            if isinstance(a, LArr2):
+                e2 = np_empty(it, (a.nr, a.nc))
+                a.get = e2.get
+                return None
         if isinstance(a, LArr):
             a.get = lambda i, v=v: v
             return None
         if isinstance(a, HeapArr1):
             it._log_write(("a1", a.field))
             it.heap.write_a1_where(a.field, a.owner.ref, lambda j: True, lambda j, v=v: to_real(v))
+            return None
+        if isinstance(a, LArr2):
+            a.get = lambda i, j, v=v: v
             return None
         raise Unsupported("fill on %r" % (a,))
     if name == "copy":
